@@ -157,7 +157,7 @@ class Extractor:
     def parse_block(self, block):
         """parse the directive block of an EXTRACT."""
         d = dict(ret=None, safety=None, spec=None, loops={}, loopstart={}, loopend={}, inserts=[], substs=[], bodyonly=False,
-                 frm=None, to=None, optional=False, rename=None, pub=False, r4=False, replaces=[], pubfields=False, fnend=None, fnstart=None, attr=None, r4tail=False, frm_after=False)
+                 frm=None, to=None, optional=False, rename=None, pub=False, r4=False, replaces=[], pubfields=False, fnend=None, fnstart=None, attr=None, r4tail=False, frm_after=False, to_close=False)
         i = 0
 
         def grab(endmarks):
@@ -251,6 +251,9 @@ class Extractor:
                 d["frm_after"] = True
             elif k == "TO":
                 d["to"], _ = grab(["ENDTO"])
+            elif k == "TOCLOSE":
+                d["to"], _ = grab(["ENDTOCLOSE"])
+                d["to_close"] = True
             else:
                 raise UnitError("unknown directive %r" % s)
             i += 1
@@ -642,7 +645,13 @@ class Extractor:
                 if len(hf) != 1 or len(ht) != 1:
                     raise LostAnchor("%s: block anchors match %d/%d times in %s" % (rel, len(hf), len(ht), name))
                 cut_lo = (toks[hf[0] + len(wf) - 1].end - base) if d["frm_after"] else (toks[hf[0]].start - base)
-                cut_hi = toks[ht[0] + len(wt) - 1].end - base
+                if d["to_close"]:
+                    last = ht[0] + len(wt) - 1
+                    if toks[last].text != "{":
+                        raise UnitError("TOCLOSE anchor must end with `{`")
+                    cut_hi = toks[src.tbl[last]].end - base
+                else:
+                    cut_hi = toks[ht[0] + len(wt) - 1].end - base
                 bump("R7")
                 l1 = src.text.count("\n", 0, toks[hf[0]].start) + 1
                 l2 = src.text.count("\n", 0, toks[ht[0]].start) + 1
